@@ -510,6 +510,34 @@ static void c08_run_case(const LabCase& lc, Rng& rng, bool thorough, Stats& st, 
       else if (res != "ok") report("roundtrip-mismatch", "history=" + hs + "|" + res, res, rp);
     }
   }
+  // (6) the disk fills while yr_rules_save(path) is writing and the error only surfaces when the file is closed
+  // (buffered writes): a save that reports success must have produced a file that loads into equal rules
+  if (only_kind.empty() || only_kind == "save-error-at-close") {
+    IsoResult r = sim_isolate([&] {
+      CompileResult cr = compile_rules(lc.spec); if (!cr.rules) { iso_emit("compile-failed\n"); return; }
+      std::string before = scan_traces(cr.rules, bufs);
+      std::string full; save_rules(cr.rules, full);
+      int64_t n = only_kind.empty() ? (int64_t) (full.size() * (1 + (idx % 7)) / 8) : ra;
+      std::string path = tmp_dir() + "/c08-close." + std::to_string((int) getpid()) + ".yarc"; unlink(path.c_str());
+      sim_fs_reset(); g_fs.fwrite_lost_after_bytes = n;
+      int src = yr_rules_save(cr.rules, path.c_str());
+      sim_fs_reset();
+      iso_emit("N " + std::to_string(n) + "\n");
+      YR_RULES* l = NULL; int rc = yr_rules_load(path.c_str(), &l); unlink(path.c_str());
+      std::string after = rc == ERROR_SUCCESS ? scan_traces(l, bufs) : std::string(); if (l) yr_rules_destroy(l);
+      yr_rules_destroy(cr.rules);
+      if (src != ERROR_SUCCESS) iso_emit("ok\n");                               // reported: nothing more to ask of the save
+      else if (rc != ERROR_SUCCESS) iso_emit(std::string("save-reported-success-but-file-does-not-load:") + yr_error_name(rc) + "\n");
+      else if (after != before) iso_emit("save-reported-success-but-loaded-rules-differ\n");
+      else iso_emit("ok\n");
+    }, 120);
+    st.runs++; st.c["faults_fired.write_error_surfacing_at_close"]++;
+    Hash64 h; h.add("sec"); h.addu(idx); st.hash(h.h);
+    std::string res; int64_t n = 0; { size_t p = 0; while (p < r.out.size()) { size_t e = r.out.find('\n', p); if (e == std::string::npos) break; std::string ln = r.out.substr(p, e - p); if (ln.rfind("N ", 0) == 0) n = atoll(ln.c_str() + 2); else res = ln; p = e + 1; } }
+    J rp = c08_replay(lc, bufs, "save-error-at-close", n, 0, 0);
+    if (r.kind != 0) report("crash", "history=save-error-at-close|" + sim_crash_signature(r), r.err.substr(0, 2000), rp);
+    else if (res != "ok") report("failed-write-unreported", "history=save-error-at-close|" + res.substr(0, res.find(':')), "the disk filled after " + std::to_string(n) + " bytes and the error surfaced at fclose: " + res, rp);
+  }
   // (5) rules disabled before the save and enabled again afterwards: the original and the loaded copy, driven by the
   // same calls, must agree before and after re-enabling, and after re-enabling both must equal the untouched rules
   if (only_kind.empty() || only_kind == "disable-save-enable") {
